@@ -4,7 +4,7 @@ each line validates against the schema its record_type maps to; ids shared; upst
 succeeded except a final failing one; pipeline_end ok iff the run returned; the original exception reaches the caller; the file
 is closed afterwards.
 Bound: base pipelines of 1..4 nodes x failing node index x failure kinds {processor exception (plain, wrapping another exception, with a set argument), unresolvable parameter, type gate,
-undeclared context write, node construction error (unknown parameter, probe without context key), KeyboardInterrupt} x detail
+undeclared context write, node construction error (unknown parameter, probe without context key), KeyboardInterrupt, SystemExit, GeneratorExit} x detail
 levels {hash, repr, context, all} x file / directory output."""
 import json, sys, os, tempfile, logging, itertools, glob
 logging.disable(logging.CRITICAL)
@@ -53,6 +53,16 @@ class Interrupt(FloatOperation):
         raise KeyboardInterrupt()
 
 
+class ExitsProcess(FloatOperation):
+    def _process_logic(self, data):
+        raise SystemExit(3)
+
+
+class GeneratorClosed(FloatOperation):
+    def _process_logic(self, data):
+        raise GeneratorExit()
+
+
 class BadWriter(FloatOperation):
     def _process_logic(self, data):
         self._notify_context_update("not_declared", 1)
@@ -71,6 +81,8 @@ FAILS = {
     "construction:unknown-parameter": {"processor": FloatMultiplyOperation, "parameters": {"factor": 2.0, "bogus": 1}},
     "construction:probe-without-context-key": {"processor": FloatCollectValueProbe},
     "abort:KeyboardInterrupt": {"processor": Interrupt},
+    "abort:SystemExit": {"processor": ExitsProcess},
+    "abort:GeneratorExit": {"processor": GeneratorClosed},
 }
 failures, evaluations, distinct, samples = [], 0, set(), []
 tmp = Path(tempfile.mkdtemp())
@@ -164,7 +176,7 @@ for n in (1, 2, 3, 4):
             m = list(nodes[:fail_at]) + [dict(bad)] + list(nodes[fail_at:n - 1]) if fail_at < n else list(nodes) + [dict(bad)]
             for d in (details if thorough else [details[(fail_at + n) % 4]]):
                 check(m, fail_at, kind, d, (fail_at + n) % 3 == 0)
-print(json.dumps({"bound": "pipelines of 1..4 nodes x failing node at every index >= 1 x 9 failure kinds x detail levels {hash,repr,context,all} x file/directory output",
+print(json.dumps({"bound": "pipelines of 1..4 nodes x failing node at every index >= 1 x 11 failure kinds x detail levels {hash,repr,context,all} x file/directory output",
                   "evaluations": evaluations, "distinct_nontrivial": len(distinct),
                   "rule": "distinct = (failure kind, failing index, length); every emitted line validated with jsonschema against the registry schema of its record_type",
                   "failures": failures[:40], "samples": samples}, default=str))
